@@ -113,7 +113,6 @@ def check_case(case):
     kinds = case.get('kinds') or ['stringio', 'chunked', 'path', 'file']
     try:
         d, ref = _expect(text)
-        d2, ref_u = _expect(x12ref.universal_newlines(text))
     except x12ref.NotX12:
         raise core.HarnessError('generator produced a non-ISA text')
     streams = {}
@@ -138,7 +137,7 @@ def check_case(case):
                             except Exception:
                                 pass
                     else:
-                        with open(tmp, 'r', encoding='ascii') as fh:
+                        with open(tmp, 'r', encoding='ascii', newline='') as fh:
                             rd, got = read_all(fh)
             except core.Inconclusive:
                 raise
@@ -146,8 +145,8 @@ def check_case(case):
                 out.fail(core.exc_bucket(e, 'read:%s' % kind), core.exc_detail(e))
                 continue
             streams[kind] = got
-            r = ref_u if kind in ('path', 'file') else ref
-            _cmp_stream(kind, got, d, r, out)
+            # a file named by path, or opened by the caller without newline translation, holds the same characters
+            _cmp_stream(kind, got, d, ref, out)
     finally:
         if tmp is not None:
             try:
@@ -212,7 +211,7 @@ def case_strategy(tier):
             picks = draw(st.lists(st.sampled_from(pool), min_size=4, max_size=4, unique=True))
             term, ele, sub, rep = picks
             if draw(st.integers(0, 5)) == 0:
-                term = '\n'
+                term = draw(st.sampled_from(['\n', '\n', '\r']))
             classes.add('non-default-delimiters')
         # ISA fields may contain the component (and repetition) separator: the ISA is never component-split
         isa_alpha = [c for c in 'ABCXYZ0189 ' + sub + (rep if icvn == '00501' else '') + '.-' if c not in (ele, term)]
@@ -223,12 +222,10 @@ def case_strategy(tier):
         else:
             sender, receiver = 'SENDER', 'RECEIVER'
         isa = x12ref.make_isa(ele=ele, sub=sub, term=term, icvn=icvn, rep=rep, sender=sender, receiver=receiver)
-        forbidden = {term, ele, sub, '\r'}
+        forbidden = {term, ele, sub}
         alphabet = [chr(c) for c in range(32, 127) if chr(c) not in forbidden]
-        if '\n' not in forbidden:
-            alphabet_lf = alphabet + ['\n']
-        else:
-            alphabet_lf = alphabet
+        # line-break characters are data when they stand inside a value
+        alphabet_lf = alphabet + [c for c in ('\n', '\r') if c not in forbidden]
         val = st.one_of(st.just(''), st.text(alphabet, min_size=1, max_size=8), st.text(alphabet_lf, min_size=1, max_size=20),
                         st.sampled_from(['A', ' ', '  x ', '0', '-1.5']))
         idchars = 'ABCDEFGHIJKLMNOPQRSTUVWXYZ0123456789'
